@@ -49,7 +49,7 @@ LEVEL_NOTE = ("Reference = merge3 package with patiencediff; texts bounded to "
               "get the weak oracle (conflict recorded <=> helper files, THIS / "
               "OTHER helper contents, resolution laws); open finding F10 "
               "(sentinel-prefixed user line) is confined to its own kind.")
-REGISTERED = False
+REGISTERED = True
 NONTRIVIAL_FLOOR = {"quick": 300, "thorough": 5000}
 
 SENTINEL = "!START OF MERGE CONFLICT!I HOPE THIS IS UNIQUE"
